@@ -573,3 +573,7 @@ CHECKS["C12"]["text"] += (
 CHECKS["C04"]["text"] += (
     " Access patterns include slices with negative bounds and an empty "
     "slice.")
+CHECKS["C06"]["text"] += (
+    " The temporary features come as a set (temperature and two ML scores "
+    "whose replacement changes every event's class); ml_class is among the "
+    "features read.")
